@@ -1,8 +1,12 @@
 package main
 
-// Maps: not modelled yet (every map operation is an unsupported construct).
+// Maps: read-only model.  A map value is an opaque handle m; len(m) is the
+// uninterpreted maplen(m) >= 0 (maplen(nil) = 0); ranging over a map yields
+// maplen(m) pairs of arbitrary (well-formed) keys and values in an arbitrary
+// order.  Lookups, updates, deletes and make(map) are unsupported constructs.
 
 import (
+	"go/types"
 	"sort"
 
 	"golang.org/x/tools/go/ssa"
@@ -23,13 +27,69 @@ func (fr *Frame) mapUpdate(x *ssa.MapUpdate, st *State, rch Term) {
 }
 
 func (fr *Frame) mapLen(a Val, st *State, rch Term) Val {
-	unsup("len(map)")
-	return Val{}
+	return Val{T: types.Typ[types.Int], C: []Term{fr.mapLenTerm(a, st)}}
 }
 
 func (fr *Frame) mapLenTerm(a Val, st *State) Term {
-	unsup("len(map)")
-	return ""
+	t := sx("maplen", a.C[0])
+	fr.vc.assume(and(sx("<=", "0", t), sx("<=", t, "4611686018427387904"), implies(eq(a.C[0], "0"), eq(t, "0"))))
+	return t
+}
+
+// iterKey: state cell holding the position of a map iterator.
+func (fr *Frame) iterKey(r *ssa.Range) string {
+	return "IT$" + fr.prefix + "." + r.Name()
+}
+
+func (fr *Frame) mapRange(x *ssa.Range, st *State) Val {
+	if _, ok := x.X.Type().Underlying().(*types.Map); !ok {
+		unsup("range over string")
+	}
+	st.m[fr.iterKey(x)] = "0"
+	m := fr.value(x.X)
+	return Val{T: x.Type(), C: []Term{m.C[0]}}
+}
+
+func (fr *Frame) mapNext(x *ssa.Next, st *State, rch Term) Val {
+	r, ok := x.Iter.(*ssa.Range)
+	if !ok || x.IsString {
+		unsup("range over string")
+	}
+	vc := fr.vc
+	it := fr.value(r)
+	key := fr.iterKey(r)
+	pos := vc.get(st, key)
+	n := fr.mapLenTerm(Val{C: []Term{it.C[0]}}, st)
+	okT := vc.define("mapnext", "Bool", sx("<", pos, n))
+	tt := x.Type().(*types.Tuple)
+	v := Val{T: tt, C: []Term{okT}}
+	for i := 1; i < tt.Len(); i++ {
+		et := tt.At(i).Type()
+		if b, isB := et.(*types.Basic); isB && b.Kind() == types.Invalid {
+			// unused key / value: keep the tuple layout Extract expects
+			for range leaves(et) {
+				v.C = append(v.C, "0")
+			}
+			continue
+		}
+		ev := vc.freshVal("mapelem", et)
+		vc.assumeIf(rch, vc.wf(ev, st))
+		// string / slice data of the elements lies in [maplo(m), maphi(m))
+		ls := leaves(et)
+		for j, l := range ls {
+			if l.Comp != "arr" {
+				continue
+			}
+			ext := ev.C[j+1]
+			if j+2 < len(ls) && ls[j+2].Comp == "cap" {
+				ext = ev.C[j+2]
+			}
+			vc.assumeIf(rch, implies(sx(">", ext, "0"), and(sx("<=", sx("maplo", it.C[0]), ev.C[j]), sx("<=", sx("+", ev.C[j], ext), sx("maphi", it.C[0])))))
+		}
+		v.C = append(v.C, ev.C...)
+	}
+	st.m[key] = vc.define("mapit", "Int", ite(okT, add(pos, "1"), pos))
+	return v
 }
 
 func (fr *Frame) mapDelete(m, k Val, st *State, rch Term) {
